@@ -117,9 +117,17 @@ class _ProbeDecoder:
 
 
 def _system_confident(line, threshold):
+    """through the public entry point: a one-line page handed to PageDecoder.process_page"""
+    from pero_ocr.core.layout import PageLayout, RegionLayout
     from pero_ocr.document_ocr.page_parser import PageDecoder
     probe = _ProbeDecoder()
-    PageDecoder(probe, line_confidence_threshold=threshold, carry_h_over=False).decode_line(line)
+    page = PageLayout(id="p", page_size=(10, 10))
+    region = RegionLayout("r", np.array([[0, 0], [9, 0], [9, 9], [0, 9]]))
+    region.lines.append(line)
+    page.regions.append(region)
+    keep = line.transcription
+    PageDecoder(probe, line_confidence_threshold=threshold, carry_h_over=False).process_page(page)
+    line.transcription = keep
     return not probe.called
 
 
